@@ -165,12 +165,37 @@ pub fn run(name: &str, a: &Args) -> Option<String> {
             } else {
                 TimeSeries::exclusive(s, e, step)
             };
+            let whole = it.clone();
             let mut out = Vec::new();
+            let mut items = Vec::new();
+            let mut ended = false;
             for _ in 0..a.z(9) {
                 match it.next() {
-                    Some(x) => out.push(format!("1 {}", pep(x))),
-                    None => out.push("0".to_string()),
+                    Some(x) => {
+                        assert!(!ended, "an item after the series had ended");
+                        items.push(x);
+                        out.push(format!("1 {}", pep(x)))
+                    }
+                    None => {
+                        ended = true;
+                        out.push("0".to_string())
+                    }
                 }
+            }
+            // a for loop and collect see the same items as repeated next()
+            let same = |x: &Epoch, y: &Epoch| x.duration.to_parts() == y.duration.to_parts() && x.time_scale == y.time_scale;
+            let mut k = 0;
+            for x in whole.clone().take(items.len() + 1) {
+                assert!(k < items.len() || !ended, "the for loop yields more items than next()");
+                if k < items.len() {
+                    assert!(same(&x, &items[k]), "the for loop and next() disagree");
+                }
+                k += 1;
+            }
+            assert!(k >= items.len());
+            if ended {
+                let v: Vec<Epoch> = whole.collect();
+                assert!(v.len() == items.len() && v.iter().zip(items.iter()).all(|(x, y)| same(x, y)), "collect() and next() disagree");
             }
             out.join(" ")
         }
